@@ -31,7 +31,7 @@ def times(variant, n):
 def render_history(hist, variant):
     """-> (lines, expectations, ref) for prelude + hist."""
     ref = ot.RefConn()
-    evs = list(ot.PRELUDE) + [list(e) for e in hist]
+    evs = prelude_of(variant) + [list(e) for e in hist]
     ts = times(variant, len(evs))
     lines, exps = [], []
     for ev, t in zip(evs, ts):
@@ -43,9 +43,13 @@ def render_history(hist, variant):
     return lines, exps, ref
 
 
+def prelude_of(variant):
+    return [] if variant.get('late_registry') else [list(e) for e in ot.PRELUDE]
+
+
 def ref_after(hist, variant):
     ref = ot.RefConn()
-    evs = list(ot.PRELUDE) + [list(e) for e in hist]
+    evs = prelude_of(variant) + [list(e) for e in hist]
     for ev, t in zip(evs, times(variant, len(evs))):
         ot.build(ev, ref, t)
     return ref
@@ -108,7 +112,7 @@ def run_history(hist, variant, check_from=0):
     case = {'history': [list(e) for e in hist], 'variant': variant}
     V = []
     lines, exps, ref = render_history(hist, variant)
-    npre = len(ot.PRELUDE)
+    npre = len(prelude_of(variant))
     outcome = []
     try:
         s = sut.Session()
@@ -134,7 +138,9 @@ def run_history(hist, variant, check_from=0):
                         'destroyed object': 'annotation.object'}.get(what, 'label.' + what.split(' ')[0].rstrip('0123456789'))
                 V.append(Violation(kind, case, dict(step, what=what, expected=e, observed=o, shown=rec['text'])))
         conns = s.cm.connections()
-        if len(conns) != 1:
+        if not lines:
+            pass
+        elif len(conns) != 1:
             V.append(Violation('shape.connections', case, {'expected': 1, 'observed': len(conns)}))
         else:
             conn = conns[0]
@@ -173,6 +179,9 @@ def make_expand(variant, kinds=None, alphabet_kw=None):
     """BFS expansion: enabled events come from the reference state reached by hist."""
     alphabet_kw = alphabet_kw or {}
 
+    if variant.get('late_registry'):
+        alphabet_kw = dict(alphabet_kw, late_registry=True, client_ids=(2, 3), server_ids=(ot.SERVER_BASE,), with_foreign=False)
+
     def expand(hist):
         ref = ref_after(hist, variant)
         out = []
@@ -183,12 +192,14 @@ def make_expand(variant, kinds=None, alphabet_kw=None):
                 V = [v for v in V if v.kind.split('.')[0] in kinds]
             key = ref_after(h2, variant).key()
             out.append((ev, key, Eval(V, outcome=outcome, nontrivial=nontrivial(h2),
-                                      transitions=len(h2) + len(ot.PRELUDE))))
+                                      transitions=len(h2) + len(prelude_of(variant)))))
         return out
     return expand
 
 
 VARIANTS = {
+    'late_registry': {'dialect': 'mid', 'late_registry': True},
+    'late_registry_server': {'dialect': 'old', 'late_registry': True, 'server_side': True, 'time': 'equal'},
     'client': {'dialect': 'mid'},
     'server': {'dialect': 'mid', 'server_side': True},
     'client_equal_times': {'dialect': 'old', 'time': 'equal'},
